@@ -195,14 +195,14 @@ Proof.
     repeat (match goal with |- context [if ?x then _ else _] => destruct x eqn:? end);
     repeat (match goal with |- context [match hub ?s0 ?c with Some _ => _ | None => _ end] => destruct (hub s0 c) eqn:? end);
     repeat (match goal with |- context [if ?x then _ else _] => destruct x eqn:? end).
-  all: try (eapply Cb_step0 with (t := t); [exact CI|exact NN
+  all: try (eapply Cb_step0 with (t := t) (nt := 2 * next_int s + 1); [exact CI|exact NN
        |corec; rewrite ?C1, ?H1, ?G1; reflexivity|corec; rewrite ?C3, ?H3, ?G3; reflexivity
        |corec; rewrite ?C4, ?H4, ?G4; reflexivity|corec; rewrite ?C5, ?H5, ?G5; auto
        |corec; rewrite ?C2, ?H2, ?G2; first [apply oth_plain | apply oth_spawn; [exact FR|exact NT|reflexivity]]
        |corec; rewrite ?C2, ?H2, ?G2; apply upd_same
        |intros ? X; inversion X; subst; cbn; intros; first [apply CLI; assumption | congruence | auto]
        |intros ? X; discriminate X|intros ? X; discriminate X]; fail).
-  all: try (eapply Cb_step1 with (t := t); [exact CI|exact NN
+  all: try (eapply Cb_step1 with (t := t) (nt := 2 * next_int s + 1); [exact CI|exact NN
        |corec; reflexivity|corec; reflexivity|corec; reflexivity|corec; auto
        |cbn; intros X; first [discriminate X | split; [discriminate|auto]]
        |corec; apply oth_plain|corec; apply upd_same
